@@ -199,7 +199,11 @@ def run_entry_points(d, analyses, work, floor):
             # the process died: a panic in a worker goroutine cannot be recovered in-process
             started = [a for a in starts if a not in res]
             a = started[-1] if started else (todo[0] if todo else "?")
-            results[a] = {"status": "panic", "secs": 0.0, "budget": 0.0, "detail": (se or so)[-1500:]}
+            txt = se or so
+            m = re.search(r"^(?:panic|fatal error): (.*)$", txt, flags=re.M)
+            # message line first (it names the violation), then the goroutine dump from the panic on
+            results[a] = {"status": "panic", "secs": 0.0, "budget": 0.0,
+                          "detail": ((m.group(1) + "\n" + txt[m.start():m.start() + 1500]) if m else "process died: " + txt[-1500:])}
             if a in todo:
                 todo.remove(a)
             continue
@@ -237,10 +241,22 @@ def first_line(s):
     """stable name of a panic: first line of the message, cut before program-specific parts (` in <function>`, ` at <position>`)"""
     s = s.strip().strip('"').replace("\\n", "\n")
     l = s.split("\n")[0] if s else ""
-    l = re.split(r" in | at |: ", l)[0] if not l.startswith("runtime error") else l
+    if "nil pointer dereference" in l:
+        return "nil-deref"
+    if l.startswith("runtime error"):
+        l = l[len("runtime error"):].strip(": ")
+        l = re.sub(r"\[[^\]]*\]", "", l)           # index out of range [5] with length 3
+    else:
+        l = re.split(r" in | at |: ", l)[0]
     l = re.sub(r"0x[0-9a-f]+", "0x?", l)
     l = re.sub(r"\d+", "N", l)
     return l[:70].strip().replace(" ", "_")
+
+
+def program_key(d):
+    """committed corpus programs are named; seed-generated ones share one name so that their keys do not depend on the seed"""
+    name = os.path.basename(d)
+    return name if os.path.dirname(os.path.abspath(d)) == os.path.abspath(CORPUS) else "generated"
 
 
 def panic_site(s):
@@ -305,16 +321,18 @@ def run(chk):
             counts[stt] = counts.get(stt, 0) + 1
             if stt == "panic":
                 found_concrete = True
-                key = "panic:%s@%s:%s" % (first_line(r["detail"]), panic_site(r["detail"]), a)
+                # stable key: (program, normalised message, entry point).  The panic SITE is not part of the key: the same root
+                # cause surfaces at different frames depending on map iteration order (it is kept in the description and replay).
+                key = "panic:%s:%s:%s" % (program_key(d), first_line(r["detail"]), a)
                 rd = chk.replay_dir(key)
                 shutil.copytree(d, os.path.join(rd, name))
                 open(os.path.join(rd, "replay.txt"), "w").write(
-                    "analysis entry point %s panics on program %s\n\n%s\n\nre-run: /verif/build/bin/c07run -only %s %s\n"
-                    % (a, name, r["detail"].replace("\\n", "\n"), a, os.path.join(rd, name)))
-                chk.violation(key, "%s panics on %s: %s" % (a, name, first_line(r["detail"])), rd)
+                    "analysis entry point %s panics on program %s (raised in %s)\n\n%s\n\nre-run: /verif/build/bin/c07run -only %s %s\n"
+                    % (a, name, panic_site(r["detail"]), r["detail"].replace("\\n", "\n").replace("\\t", "\t"), a, os.path.join(rd, name)))
+                chk.violation(key, "%s panics on %s: %s (raised in %s)" % (a, name, first_line(r["detail"]), panic_site(r["detail"])), rd)
             elif stt == "timeout" and r.get("confirmed"):
                 found_concrete = True
-                key = "timeout:%s:%s" % (a, name)
+                key = "timeout:%s:%s" % (a, program_key(d))
                 extra = ""
                 if a in ("taint-fs", "taint-fs-ondemand"):
                     is_f3, extra = diagnose_fs_timeout(d, work)
